@@ -4,7 +4,7 @@ Each summarize_* runs one function once over a symbolic pre-state and returns a 
 (path condition, outcome, payload id, event trace, datastore post-state).  Properties are assertions
 over these records; history properties instantiate them several times by substitution.
 """
-import z3
+import z3, re
 from sym import *
 from world import *
 
@@ -22,6 +22,24 @@ class Path:
         for a in acc: t = t + a
         return t
     def writes(s, key): return [e for e in s.events if e[0] == 'fs.write' and e[1] == key]
+    def stored(s, key):
+        """content object of a datastore file at the end of the path (None if absent)"""
+        present, content = s.fs.get(key, (z3.BoolVal(False), None))
+        return content if not z3.is_false(present) else None
+    def stored_doc_is(s, key, did):
+        """the file holds the JSON serialisation of the document with this id (written on this path)"""
+        c = s.stored(key)
+        return isinstance(c, Obj) and c.kind == 'json' and isinstance(c.d.get('val'), Adt) and z3.eq(c.d['val'].fields.get((None, 'id')), did)
+    def stored_value_is(s, key, term):
+        c = s.stored(key)
+        return isinstance(c, Obj) and c.kind == 'json' and z3.is_expr(c.d.get('val')) and z3.eq(c.d['val'], term)
+    def touched(s):
+        """datastore files (other than the clock file and temporary files that are gone again) whose content changed on this path"""
+        out = set()
+        for e in s.events:
+            if e[0] in ('fs.write', 'fs.open_trunc', 'fs.unlink', 'fs.write_failed', 'fs.create_new'): out.add(e[1])
+            if e[0] == 'fs.rename': out.add(e[2])
+        return {k for k in out if not k.endswith('latest_known_time.json') and not k.endswith('.tmp')}
 
 def sym_chunks(prefix, n):
     return [(z3.Bool(f'{prefix}_c{i}_exists'), z3.Bool(f'{prefix}_c{i}_err'), z3.BitVec(f'{prefix}_c{i}_len', 64), z3.BitVec(f'{prefix}_c{i}_content', 16)) for i in range(n)]
@@ -30,13 +48,13 @@ class Params(dict):
     __getattr__ = dict.__getitem__
 
 # ------------------------------------------------------------------------------------------------ load_timestamp
-DSFILES = ('timestamp.json', 'snapshot.json', 'targets.json')
+DSFILES = ['timestamp.json', 'snapshot.json', 'targets.json']      # extended (history.build_summaries) by other datastore files the code touches
 DOCMK = {}
 def ds_slots(pfx):
     """symbolic pre-state of the three trust files: (present, parses, doc id)"""
     out = {}
     for f in DSFILES:
-        n = f.split('.')[0]
+        n = re.sub(r'\W', '_', f[:-5] if f.endswith('.json') else f)
         out[f] = (z3.Bool(f'{pfx}_ds_{n}_present'), z3.Bool(f'{pfx}_ds_{n}_parses'), z3.BitVec(f'{pfx}_ds_{n}_id', 8))
     return out
 
@@ -63,8 +81,9 @@ def base_state(P, io_faults=False):
     st.env['fs'] = {'/ds/latest_known_time.json': (P.lkt_present, Obj('file', name='lkt', parsed=P.lkt, parses=P.lkt_parses))}
     mk = {'timestamp.json': timestamp_doc, 'snapshot.json': snapshot_doc, 'targets.json': targets_doc}
     for f, (pres, prs, did) in P.ds.items():
-        st.env['fs']['/ds/' + f] = stored_file('stored_' + f, mk[f](did), pres, prs)
-    st.env['io_faults'] = io_faults
+        st.env['fs']['/ds/' + f] = stored_file('stored_' + f, mk[f](did) if f in mk else timestamp_doc(did), pres, prs)
+    st.env['io_faults'] = bool(io_faults)
+    st.env['crash_points'] = (io_faults == 'crash')
     st.env['url_join_fails'] = P.get('join_fails')
     st.pc += kinds_ok(P)
     return st
